@@ -1,6 +1,7 @@
 import Sudachi.Proofs.Build
 import Sudachi.Proofs.BuildTotal
 import Sudachi.Proofs.BuildLimits
+import Sudachi.Proofs.BuildKept
 /-!
 # C06 — the dictionary compiler is total and never emits an invalid dictionary
 
@@ -13,7 +14,12 @@ builder's `resolved` flag (`Variant.rf`: `read_lexicon` clears it) — the repai
 `Variant.staleFlag` = D1–D5 repaired, flag as the code has it; `Variant.full` = also the repairs
 N1 (no matrix read: limits 0), N3 (`read_conn` on a user builder keeps the system sizes), S4 (the
 matrix buffer is zeroed), S5 (the line buffer is cleared), S6 (the sizes follow the matrix buffer
-also when `read_conn` failed).  `Op.connIgn` is a `read_conn` whose `Err` the caller ignores.
+also when `read_conn` failed).  `Op.connIgn` is a `read_conn` whose `Err` the caller ignores,
+`Op.lexIgn` a `read_lexicon` whose `Err` the caller ignores: the builder goes on with the rows parsed
+before the malformed one (`readLexB`, `readLexiconP`, `parseRecordLeft`).  `Variant.landed` = the
+tree as it is now (everything above repaired); `s7` (the counter is raised after the last check of
+`parse_record`) and `la` (S8: a lexicon text is read completely or not at all) are the two repairs
+proposed for what a failing read leaves behind, both in `Variant.full`.
 -/
 namespace C06
 open Build
@@ -178,7 +184,9 @@ theorem stale_resolved_repaired :
 (D1 `todo!()`, D2 unchecked matrix index, D4 empty key set, D5 NUL in an indexed surface, and the
 `resolved` flag cleared by `read_lexicon`) the compilation of *every* input — ANY sequence of
 `read_conn` / `read_lexicon` / `resolve` calls with any matrix lines, any records, any csv
-failure, then `compile` with any description and any sink limit — ends in `ok` or `err`, never in
+failure, the `Err` of a `read_conn` or `read_lexicon` propagated or IGNORED (`Op.connIgn`,
+`Op.lexIgn`: the builder goes on with what the failed call left, e.g. the rows before the malformed
+one), then `compile` with any description and any sink limit — ends in `ok` or `err`, never in
 a panic: in particular the `panic!` branches of `validate_entries` / `validate_wid` are
 unreachable.  On the code as it stood the statement is false:
 `compile_total_counterexample_d1/_d2/_d4/_d5`, and with only D1–D5 repaired
@@ -559,5 +567,242 @@ example : ∃ n d, build Variant.full x0
     (inputOps [.conn m22a, .conn [some ['2', ' ', '2', '\n']]] [row ['あ'] ['0'] ['0']]).ops
       = [.conn m22a] ++ Op.conn [some ['2', ' ', '2', '\n']] :: [part [row ['あ'] ['0'] ['0']], .resolve] :=
   ⟨_, _, rfl, rfl⟩
+
+/-! ## a `read_lexicon` that FAILS and whose `Err` the caller ignores (`Op.lexIgn`)
+
+`LexiconReader::read_bytes` pushes every row it parsed before the malformed one; those rows have
+raised `unresolved` and registered their POS; `DictBuilder::read_lexicon` clears `resolved` before it
+looks at the result.  `Variant.landed` is the tree as it is now. -/
+
+/-- the matrix text `1 1\n0 0 0\n` -/
+def m11 : List (Option Str) := [some ['1', ' ', '1', '\n'], some ['0', ' ', '0', ' ', '0', '\n']]
+
+/-- a row cut off after two fields, `い,0`: `NoRawField` -/
+def shortRow : List Str := [['い'], ['0']]
+
+/-- like `part`, but the caller ignores an `Err` -/
+def partIgn (recs : List (List Str)) : Op := .lexIgn ((List.range recs.length).map (· + 1) |>.zip recs) none
+
+/-- `read_conn`, `read_lexicon(あ ; ああ with inline あ/あ)`, `resolve()`, then a lexicon text whose
+first row `あああ` (inline `あ/あ/あ`) is fine and whose second row is cut off — the `Err` is ignored —
+then `compile` (the shape of seeded change C06b) -/
+def failedReadInput : Input :=
+  { base := Base.system,
+    ops := [.conn m11, part [row ['あ'] ['0'] ['0'], rowC ['あ', 'あ'] (inlA ++ ['/'] ++ inlA)], .resolve,
+            partIgn [rowC ['あ', 'あ', 'あ'] (inlA ++ ['/'] ++ inlA ++ ['/'] ++ inlA), shortRow]],
+    descLen := 5, trieLen := 1024 }
+
+/-- if the flag is NOT cleared by the failing `read_lexicon` (`rf = false`: nothing but `resolve`
+touches it — for a failing read that is also what `let n = collect_r(result)?; if n > 0 { resolved =
+false }` does) the row kept from the failed text reaches `validate_entries` with its inline units:
+`compile` panics -/
+theorem compile_total_counterexample_failed_read :
+    build Variant.staleFlag x0 failedReadInput none = .panic .compile .unresolvedSplit := by
+  rfl
+
+/-- the tree as it is: the failing read has cleared the flag, `compile` answers `UnresolvedSplits`;
+after one more `resolve()` the dictionary compiles and the row kept from the failed text is its
+third entry (5 units resolved in all) -/
+theorem failed_read_landed :
+    build Variant.landed x0 failedReadInput none = .err .compile .UnresolvedSplits 0 ∧
+    ∃ n d, build Variant.landed x0 { failedReadInput with ops := failedReadInput.ops ++ [.resolve] } none = .ok n 5 d ∧
+      surfaces d.entries = [['あ'], ['あ', 'あ'], ['あ', 'あ', 'あ']] :=
+  ⟨rfl, _, _, rfl, rfl⟩
+
+/-- **read_lexicon clears the flag whatever its result** (full; `rf`): after `read_lexicon` — `Ok` or
+`Err`, rows kept or not — `resolved` is `false`, and nothing but the reader and the flag changed -/
+theorem read_lexicon_clears_flag (v : Variant) (x : Ext) (b : Builder) (recs : List (Nat × List Str)) (ce : Option Nat)
+    (hrf : v.rf = true) :
+    (readLexB v x b recs ce).1.resolved = false ∧
+    (readLexB v x b recs ce).1.conn = b.conn ∧ (readLexB v x b recs ce).1.maxLeft = b.maxLeft ∧
+    (readLexB v x b recs ce).1.maxRight = b.maxRight ∧ (readLexB v x b recs ce).1.connLine = b.connLine := by
+  obtain ⟨f1, f2, f3, _, f5, f6⟩ := readLexB_frame v x b recs ce
+  exact ⟨by rw [f6, hrf]; rfl, f1, f2, f3, f5⟩
+
+/-- **what a failed read_lexicon keeps** (full; the code as it stands, `la = false`).  If
+`read_lexicon` returns `Err(k)` at `line`, then either the csv reader failed — and ALL records it had
+delivered are in the builder, exactly as a successful read of them leaves it — or the records split
+into `pre`, the malformed record at `line`, and `post`, such that: every record of `pre` parsed
+(state `st1` = what reading `pre` alone gives: one entry per record appended to the entries the
+builder had); `parse_record` rejects the malformed record with `k` in that state; the entries left
+are EXACTLY those of `st1` — nothing of the malformed record, nothing of `post`; every POS registered
+up to `st1` keeps its id (the table left extends `st1.pos`: the malformed row may have registered
+more); `unresolved` is at least `st1`'s (equal after the repair S7). -/
+theorem failed_read_keeps (v : Variant) (x : Ext) (b : Builder) (recs : List (Nat × List Str)) (ce : Option Nat)
+    (k : ErrKind) (line : Nat) (hla : v.la = false) (h : (readLexB v x b recs ce).2 = .err k line) :
+    (k = .Csv ∧ ce = some line ∧ readLexicon v x b.lex recs = .ok (readLexB v x b recs ce).1.lex) ∨
+    ∃ pre bad post st1, recs = pre ++ (line, bad) :: post ∧ readLexicon v x b.lex pre = .ok st1 ∧
+      parseRecord v x st1 bad = .error k ∧
+      (readLexB v x b recs ce).1.lex.entries = st1.entries ∧
+      (∃ es, es.length = pre.length ∧ st1.entries = b.lex.entries ++ es) ∧
+      st1.pos <+: (readLexB v x b recs ce).1.lex.pos ∧
+      st1.unresolved ≤ (readLexB v x b recs ce).1.lex.unresolved ∧
+      (v.s7 = true → (readLexB v x b recs ce).1.lex.unresolved = st1.unresolved) := by
+  unfold readLexB at h ⊢
+  cases hr : readLexiconP v x b.lex recs with
+  | mk st r =>
+    have hst : st = (readLexiconP v x b.lex recs).1 := by rw [hr]
+    have hres : r = (readLexiconP v x b.lex recs).2 := by rw [hr]
+    cases r with
+    | ok u =>
+      cases u
+      cases ce with
+      | none => simp [hr] at h
+      | some l =>
+        simp only [hr, Res.err.injEq] at h
+        obtain ⟨rfl, rfl⟩ := h
+        left
+        refine ⟨rfl, rfl, ?_⟩
+        simp only [hla]
+        rw [hst]
+        exact readLexiconP_ok hres.symm
+    | panic w => simp [hr] at h
+    | err k' l' =>
+      simp only [hr, Res.err.injEq] at h
+      obtain ⟨rfl, rfl⟩ := h
+      right
+      obtain ⟨pre, bad, post, st1, h1, h2, h3, h4⟩ := readLexiconP_err hres.symm
+      obtain ⟨g1, g2, g3⟩ := parseRecordLeft_frame v x st1 bad
+      have g4 := parseRecordLeft_pos_prefix v x st1 bad
+      obtain ⟨k1, _, _⟩ := readLexicon_kept h2
+      refine ⟨pre, bad, post, st1, h1, h2, h3, ?_, k1, ?_, ?_, ?_⟩ <;>
+        simp only [hla, Bool.false_eq_true, ↓reduceIte, hst, h4]
+      · exact g1
+      · exact g4
+      · exact g2
+      · exact g3
+
+/-- **a failed read_lexicon leaves nothing** — S8 repaired (`la`; full): entries, POS table and
+`unresolved` are what they were before the call (only `resolved` is cleared).  False as the code
+stands: `failed_read_retry_duplicates_counterexample`. -/
+theorem failed_read_atomic (v : Variant) (x : Ext) (b : Builder) (recs : List (Nat × List Str)) (ce : Option Nat)
+    (hla : v.la = true) (h : (readLexB v x b recs ce).2 ≠ .ok ()) :
+    (readLexB v x b recs ce).1.lex = b.lex := by
+  unfold readLexB at h ⊢
+  cases hr : readLexiconP v x b.lex recs with
+  | mk st r =>
+    cases r with
+    | ok u =>
+      cases u
+      cases ce with
+      | none => simp [hr] at h
+      | some l => simp [hla]
+    | err k l => simp [hla]
+    | panic w => simp [hla]
+
+/-- **compile_total for pipelines with ignored read_lexicon failures** (full): with the panic
+repairs and the flag cleared by `read_lexicon`, a sequence of calls that contains a `read_lexicon`
+whose `Err` is ignored — whatever it kept — never makes the pipeline panic; the ignored call itself
+does not panic and leaves the flag cleared.  (Instance of `compile_total`, which quantifies over all
+sequences; stated for the shape the seeded change needs.)  False when the flag survives a failing
+read: `compile_total_counterexample_failed_read`. -/
+theorem compile_total_ignored_failures (v : Variant) (x : Ext) (inp : Input) (limit : Option Nat)
+    (h1 : v.d1 = true) (h2 : v.d2 = true) (h4 : v.d4 = true) (h5 : v.d5 = true) (hrf : v.rf = true)
+    (pre post : List Op) (recs : List (Nat × List Str)) (ce : Option Nat)
+    (_hops : inp.ops = pre ++ Op.lexIgn recs ce :: post) :
+    (∀ s w, build v x inp limit ≠ .panic s w) ∧
+    ∀ b, (readLexB v x b recs ce).2.isPanic = false ∧ (readLexB v x b recs ce).1.resolved = false :=
+  ⟨compile_total v x inp limit h1 h2 h4 h5 hrf,
+   fun b => ⟨readLexB_no_panic v x b recs ce, (read_lexicon_clears_flag v x b recs ce hrf).1⟩⟩
+
+/-- **compile_valid over pipelines with ignored read_lexicon failures** (full for the repaired
+right-id check).  If the calls are `pre`, a `read_lexicon` whose `Err` is ignored, `post`, and
+`compile` succeeds, then the rows the failed call left in the builder ARE rows of the dictionary
+(their surfaces, in order, begin the dictionary's), and the dictionary is valid like any other:
+connection ids of indexed entries inside the matrix, every reference resolved and pointing to an
+existing entry, format limits respected — the rows kept from the failed text went through
+`validate_entries` like the rest. -/
+theorem compile_valid_ignored_failures (v : Variant) (x : Ext) (inp : Input) (limit : Option Nat) (n cnt : Nat) (d : Dict)
+    (h3 : v.d3 = true) (hconn : SizesFollowMatrix v inp)
+    (pre post : List Op) (recs : List (Nat × List Str)) (ce : Option Nat)
+    (hops : inp.ops = pre ++ Op.lexIgn recs ce :: post)
+    (h : build v x inp limit = .ok n cnt d) :
+    (∃ b0 c0, runOps v x (Builder.init v inp.base, 0) pre = .ok (b0, c0) ∧
+      surfaces (readLexB v x b0 recs ce).1.lex.entries <+: surfaces d.entries) ∧
+    (∀ e ∈ d.entries, e.shouldIndex = true →
+      0 ≤ e.left ∧ e.left < d.conn.nl ∧ 0 ≤ e.right ∧ e.right < d.conn.nr) ∧ RefsOk d ∧ LimitsOk d := by
+  obtain ⟨b, hp, hc⟩ := (build_ok_iff ..).1 h
+  obtain ⟨_, _, _, hd⟩ := (compile_ok_iff ..).1 hc
+  obtain ⟨b0, c0, hb0, hs⟩ := prepare_lexIgn hp hops
+  refine ⟨⟨b0, c0, hb0, ?_⟩, compile_valid v x inp limit n cnt d h3 hconn h⟩
+  subst hd
+  exact hs
+
+/-- non-vacuity of `compile_total_ignored_failures`, `compile_valid_ignored_failures` and
+`failed_read_keeps`: the witness has the shape, the ignored call fails with `NoRawField` at line 2
+having kept a row, the flags of `Variant.landed` are the ones asked for, and with one more
+`resolve()` it compiles under `SizesFollowMatrix` -/
+example : failedReadInput.ops = [.conn m11, part [row ['あ'] ['0'] ['0'], rowC ['あ', 'あ'] (inlA ++ ['/'] ++ inlA)], .resolve]
+      ++ Op.lexIgn ((List.range 2).map (· + 1) |>.zip [rowC ['あ', 'あ', 'あ'] (inlA ++ ['/'] ++ inlA ++ ['/'] ++ inlA), shortRow]) none :: [] ∧
+    Variant.landed.d1 = true ∧ Variant.landed.d3 = true ∧ Variant.landed.rf = true ∧ Variant.landed.la = false ∧
+    SizesFollowMatrix Variant.landed { failedReadInput with ops := failedReadInput.ops ++ [.resolve] } ∧
+    (∃ n d, build Variant.landed x0 { failedReadInput with ops := failedReadInput.ops ++ [.resolve] } none = .ok n 5 d) ∧
+    (readLexB Variant.landed x0 (Builder.init Variant.landed Base.system)
+      ((List.range 2).map (· + 1) |>.zip [rowC ['あ', 'あ', 'あ'] (inlA ++ ['/'] ++ inlA ++ ['/'] ++ inlA), shortRow]) none).2
+      = .err .NoRawField 2 :=
+  ⟨rfl, rfl, rfl, rfl, rfl, sizesFollow_repaired _ _ rfl rfl rfl, ⟨_, _, rfl⟩, rfl⟩
+
+/-- non-vacuity of `failed_read_atomic` -/
+example : Variant.full.la = true ∧
+    (readLexB Variant.full x0 (Builder.init Variant.full Base.system) [(1, row ['あ'] ['0'] ['0']), (2, shortRow)] none).2 ≠ .ok () :=
+  ⟨rfl, by
+    rw [show (readLexB Variant.full x0 (Builder.init Variant.full Base.system)
+      [(1, row ['あ'] ['0'] ['0']), (2, shortRow)] none).2 = .err .NoRawField 2 from rfl]
+    simp⟩
+
+/-- calls, then `compile` (no `resolve()` appended) -/
+def inputRaw (ops : List Op) : Input := { base := Base.system, ops := ops, descLen := 5, trieLen := 1024 }
+
+/-- the row `,0,0,100,あ,…,C,<あ inline>/<あ inline>,*,*,*`: empty surface, two inline units -/
+def emptySurfaceRow : List Str := (rowC [] (inlA ++ ['/'] ++ inlA)).set 4 ['あ']
+
+/-- S7: the row rejected for its empty surface has raised `unresolved` (the `+=` sits before the
+check): `compile` answers `UnresolvedSplits` although no entry has an inline unit — `resolve()`
+finds nothing to resolve and then it compiles; after the repair S7 it compiles at once -/
+theorem failed_row_bumps_unresolved_counterexample :
+    build Variant.landed x0 (inputRaw [.conn m11, part [row ['あ'] ['0'] ['0']], partIgn [emptySurfaceRow]]) none
+      = .err .compile .UnresolvedSplits 0 ∧
+    (∃ n d, build Variant.landed x0 (inputRaw [.conn m11, part [row ['あ'] ['0'] ['0']], partIgn [emptySurfaceRow], .resolve]) none
+      = .ok n 0 d) ∧
+    (∃ n d, build { Variant.landed with s7 := true } x0
+        (inputRaw [.conn m11, part [row ['あ'] ['0'] ['0']], partIgn [emptySurfaceRow]]) none = .ok n 0 d) :=
+  ⟨rfl, ⟨_, _, rfl⟩, ⟨_, _, rfl⟩⟩
+
+/-- the row `い,…,新品詞,…,A,0,…`: a new POS, A-mode with a split (`InvalidSplit`, detected after `pos_of`) -/
+def newPosBadRow : List Str := ((row ['い'] ['0'] ['0']).set 5 ['新', '品', '詞']).set 15 ['0']
+
+/-- the malformed row itself is half-registered: its POS stays in the table — the dictionary has
+one entry and two POS rows; after the repair S8 one -/
+theorem failed_row_registers_pos_counterexample :
+    (∃ n d, build Variant.landed x0
+        (inputRaw [.conn m11, part [row ['あ'] ['0'] ['0']], partIgn [newPosBadRow], .resolve]) none = .ok n 0 d ∧
+      d.entries.length = 1 ∧ d.pos.length = 2) ∧
+    (∃ n d, build Variant.full x0
+        (inputRaw [.conn m11, part [row ['あ'] ['0'] ['0']], partIgn [newPosBadRow], .resolve]) none = .ok n 0 d ∧
+      d.entries.length = 1 ∧ d.pos.length = 1) :=
+  ⟨⟨_, _, rfl, rfl, rfl⟩, ⟨_, _, rfl, rfl, rfl⟩⟩
+
+/-- S8: a text `あ ; い ; <cut-off row>` fails, the caller corrects it and reads `あ ; い ; う`: the
+two rows the failed call kept are there twice (5 entries); after the repair S8 the dictionary has
+the 3 rows of the corrected text -/
+theorem failed_read_retry_duplicates_counterexample :
+    (∃ n d, build Variant.landed x0
+        (inputRaw [.conn m11, partIgn [row ['あ'] ['0'] ['0'], row ['い'] ['0'] ['0'], shortRow],
+                   part [row ['あ'] ['0'] ['0'], row ['い'] ['0'] ['0'], row ['う'] ['0'] ['0']], .resolve]) none = .ok n 0 d ∧
+      surfaces d.entries = [['あ'], ['い'], ['あ'], ['い'], ['う']]) ∧
+    (∃ n d, build Variant.full x0
+        (inputRaw [.conn m11, partIgn [row ['あ'] ['0'] ['0'], row ['い'] ['0'] ['0'], shortRow],
+                   part [row ['あ'] ['0'] ['0'], row ['い'] ['0'] ['0'], row ['う'] ['0'] ['0']], .resolve]) none = .ok n 0 d ∧
+      surfaces d.entries = [['あ'], ['い'], ['う']]) :=
+  ⟨⟨_, _, rfl, rfl⟩, ⟨_, _, rfl, rfl⟩⟩
+
+/-- a row kept from a failed text is validated like any other: `あ` declares the dictionary form 2,
+the row with that number comes after the malformed one and was never read — `compile` rejects the
+entry (`InvalidFieldSize` at entry 0) instead of emitting a dangling reference -/
+theorem failed_read_kept_row_validated :
+    build Variant.landed x0
+      (inputRaw [.conn m11, partIgn [(row ['あ'] ['0'] ['0']).set 13 ['2'], shortRow, row ['う'] ['0'] ['0']], .resolve]) none
+      = .err .compile .InvalidFieldSize 0 := by
+  rfl
 
 end C06
